@@ -154,7 +154,7 @@ def check_case(case):
     try:
         e = b.build(case["expr"])
     except RecursionError:
-        raise
+        raise Violation("construction recursed without end: a constructor produced a node that contains itself", {"kind": "cycle"})
     except Exception as ex:
         # the model accepted this program: the public constructor must accept it too
         raise Violation(f"constructor raised {type(ex).__name__}: {str(ex)[:300]}", {"kind": "raised:" + exc_bucket(ex)})
